@@ -29,9 +29,10 @@ SIGNATURES = [
     ("seq_with_select", r"\[kw:with\]"),
     ("select_que", r"kw:select \[Que\]"),
     ("subprogram_parameter_kw", r"kw:(function|procedure) \[\S+\] kw:parameter"),
+    # more specific than call_extra_rpar (`view ( w . v ) ; )`): the dropped `;` is followed by `)` in the input
+    ("iface_trailing_semicolon", r"\[SemiColon\] RightPar .*out=RightPar"),
     ("call_extra_rpar", r"RightPar \[SemiColon\] .*out=RightPar"),
     ("config_selected_entity", r"ctx=(\S+ )*kw:configuration \S+ kw:of \S+ Dot \[Identifier\]"),
-    ("iface_trailing_semicolon", r"\[SemiColon\] RightPar .*out=RightPar"),
     ("postponed_selected", r"\[kw:postponed\] kw:with"),
     ("parameter_without_list", r"kw:(function|procedure) \S+ (kw:generic .*)?\[kw:parameter\] (kw:return|SemiColon|kw:is)"),
     ("config_spec_map_only", r"kw:for .* Colon Identifier kw:(generic|port) \[kw:map\]"),
@@ -299,16 +300,26 @@ def main(tier, replay=None):
         now = time.time()
         stage_s[name] = round(stage_s.get(name, 0) + now - t_prev[0], 1)
         t_prev[0] = now
-    proof_stage(res, PROP, thorough=(tier == "thorough"))
-    lap("proof")
+    # the proof stage (coqc of Props/C12.v's cone, Print Assumptions, lint) is independent of the dynamic part: it runs in
+    # a thread next to the harness / model runs and is joined before the Coq cross-check
+    import threading
+
+    def proof_job():
+        t0 = time.time()
+        proof_stage(res, PROP, thorough=(tier == "thorough"))
+        stage_s["proof(overlapped)"] = round(time.time() - t0, 1)
+    proof_thread = threading.Thread(target=proof_job)
+    proof_thread.start()
     ok, log, hbin = harness_build("c12")
     if not ok:
         res.violation("harness build failed against the current /repo tree", {"kind": "build", "log": log[-3000:]},
                       no_failing_input=True)
+        proof_thread.join()
         return res.finish()
     ok, log, mbin = ocaml_build("c12_run")
     if not ok:
         res.violation("extracted model build failed", {"kind": "build", "log": log[-3000:]}, no_failing_input=True)
+        proof_thread.join()
         return res.finish()
 
     lap("builds")
@@ -441,7 +452,7 @@ def main(tier, replay=None):
         lst = os.path.join(d, "libs.txt")
         open(lst, "w").write("\n".join(libs) + "\n")
         res.coverage["library_files"] = len(libs)
-        stream("libraries", "files:" + lst, 7 if thorough else 2, 0)
+        stream("libraries", "files:" + lst, 7 if thorough else 1, 0)
         # harvested snippets (+ variants)
         snips = harvest()
         res.coverage["harvested_string_literals"] = len(snips)
@@ -489,6 +500,8 @@ def main(tier, replay=None):
         res.violation(what, obj, no_failing_input=True)
     res.coverage["property_violating_inputs"] = len(pending["input"])
     res.coverage["correspondence_differences"] = len(pending["corr"])
+    proof_thread.join()
+    lap("proof_join")
     coq_cross_check(res, terms[:150])
     lap("coq_cross_check")
     res.coverage["stage_seconds"] = stage_s
